@@ -477,6 +477,15 @@ class TermMixin:
         if t.get("t") is None:
             return []
         out = []
+        if len(outcomes) > 1 and not self.key_all and self.key_top_outcomes and fr.parent is None:
+            # path sensitivity on call outcomes in the entry function only: exits stay apart per outcome shape
+            cf = CFG.callee_of(t)
+            nm = (cf["path"].split("::")[-1] if cf else "call")
+            labs = [self._shape_label(rv) if rv is not None else None for (_, rv) in outcomes]
+            if len(set(labs)) > 1:
+                for (ns, rv), lb in zip(outcomes, labs):
+                    if lb:
+                        ns.key = ns.key + (("out", nm, lb),)
         if len(outcomes) > 1 and self.key_all:
             # full path sensitivity requested (small functions): outcomes that return different
             # variants stay apart
